@@ -55,10 +55,14 @@ Calibration (unchanged tree, seeds 0,1,2,7,12345 quick + one thorough run)
   bound is now 20 000 + 4 000 (n+e) + 2 (n+e)^2.
 * No false alarm was observed.  Checked during development, outside the module:
   the harness' dependency lists agree with DependenciesMapping on 52 331
-  generated nodes and ``_walk`` agrees with it on 4 975 borrowed nodes; with both
-  proposed fixes applied to a scratch copy of the tree the quick run holds
-  (368 474 order() calls), i.e. every alarm on the unchanged tree belongs to one
-  of the two mechanisms.
+  generated nodes and ``_walk`` agrees with it on 4 975 borrowed nodes; with the
+  fixes proposed for defects 1 and 2 applied to a scratch copy of the unchanged
+  tree the quick run held (368 474 order() calls), and with the fix proposed for
+  defect 3 applied to a scratch copy of the tree at d4e40d1 the quick run held
+  for seeds 0, 3, 11 (incl. 1 500 tower programs each), i.e. every alarm seen
+  belongs to one of the three mechanisms.  A first, wrong version of the defect-3
+  fix (orphaned roots numbered in set order) was refuted by this monitor
+  (``priority-not-above-dependency:of-other``).
 * Harness error corrected: recipe ``rechunk`` called ``cumsum()`` without axis.
 * Literals are ``0.5`` / ``None`` so that a datum can never equal a generated
   key (with int keys the literal ``1`` would be a reference in a legacy graph).
@@ -97,16 +101,16 @@ FLOORS = {
                            "tower_programs": 700, "data_root_only_under_striplists_programs": 550,
                            "line_events": 65000000},
               "sets": {"shapes": 1100, "borrowed_recipes": 10}},
-    # measured (thorough, seed 0, tree before d6fa8cf, without the 40 000 tower programs added afterwards): 257 785 cases,
-    # 220 244 distinct non-trivial, 1 504 780 order() calls, acyclic_checked 1 274 691, cyclic_rejected 182 597,
-    # edges_checked 6 911 937, external_ref_calls 693 710, return_stats_calls 688 360, line_events 1 030 M, shapes 23 668
+    # measured (thorough, seed 0, tree at d4e40d1): 297 785 cases, 244 281 distinct non-trivial, 1 624 780 order() calls,
+    # acyclic_checked 1 437 225, cyclic_rejected 182 858, edges_checked 8 150 767, external_ref_calls 729 878,
+    # return_stats_calls 736 447, line_events 1 128 M, tower_programs 40 000 (32 979 with the data-root feature), shapes 31 796
     "thorough": {"evaluations": 130000, "distinct_nontrivial": 110000,
                  "counters": {"order_calls": 700000, "acyclic_checked": 580000, "cyclic_rejected": 85000,
                               "edges_checked": 3200000, "external_ref_calls": 320000, "return_stats_calls": 320000,
                               "borrowed_graphs": 2400, "scheduler_order_calls": 550, "big_graphs": 5500,
                               "tower_programs": 18000, "data_root_only_under_striplists_programs": 14000,
                               "line_events": 450000000},
-                 "sets": {"shapes": 11000, "borrowed_recipes": 10}},
+                 "sets": {"shapes": 14000, "borrowed_recipes": 10}},
 }
 EXHAUSTIVE_SPACE = {
     "quick": "all DAG shapes on n<=4 nodes (upper-triangular adjacency: 1+1+2+8+64) x all kind vectors over {T,N,S,D}^n x "
@@ -543,11 +547,11 @@ def _striplists(deps, kinds):
 
 
 def _data_root_only_under_striplists(deps, kinds, strip):
-    """Input feature: some dependency-free non-task node (legacy literal / DataNode) has >= 2 dependents and all of
+    """Input feature: some dependency-free non-task node (legacy literal / list / DataNode) has >= 2 dependents and all of
     them are list leaves in the sense of _striplists."""
     n = len(deps)
     for r in range(n):
-        if deps[r] or kinds[r] not in "ND":
+        if deps[r] or kinds[r] not in "NDL":      # literal, DataNode, or a list that references no key of the graph
             continue
         dependents = {i for i in range(n) if r in deps[i]}
         if len(dependents) >= 2 and dependents <= strip:
